@@ -7,19 +7,23 @@ namespace GceTcb.CA
 
 variable {sc : Nat → Fault}
 
-theorem nd_stR (o : String) : NonDestroy (.stR o) := fun _ h => by cases h
-theorem nd_stE (o : String) : NonDestroy (.stE o) := fun _ h => by cases h
-theorem nd_stW (o : String) : NonDestroy (.stW o) := fun _ h => by cases h
-theorem nd_stWr (o : String) : NonDestroy (.stWr o) := fun _ h => by cases h
-theorem nd_stC (o : String) : NonDestroy (.stC o) := fun _ h => by cases h
-theorem nd_sgPub (o : String) : NonDestroy (.sgPub o) := fun _ h => by cases h
-theorem nd_sgSign (o : String) : NonDestroy (.sgSign o) := fun _ h => by cases h
-theorem nd_caCert (o : String) : NonDestroy (.caCert o) := fun _ h => by cases h
-theorem nd_caPsk : NonDestroy .caPsk := fun _ h => by cases h
-theorem nd_caPrk : NonDestroy .caPrk := fun _ h => by cases h
-theorem nd_caBundle : NonDestroy .caBundle := fun _ h => by cases h
-theorem nd_caFin : NonDestroy .caFin := fun _ h => by cases h
-theorem nd_kmCreate : NonDestroy .kmCreate := fun _ h => by cases h
+theorem nd_stR (o : String) : NonDestroy (.stR o) := fun _ => ⟨fun h => (by cases h), fun h => (by cases h)⟩
+theorem nd_stE (o : String) : NonDestroy (.stE o) := fun _ => ⟨fun h => (by cases h), fun h => (by cases h)⟩
+theorem nd_stW (o : String) : NonDestroy (.stW o) := fun _ => ⟨fun h => (by cases h), fun h => (by cases h)⟩
+theorem nd_stWr (o : String) : NonDestroy (.stWr o) := fun _ => ⟨fun h => (by cases h), fun h => (by cases h)⟩
+theorem nd_stC (o : String) : NonDestroy (.stC o) := fun _ => ⟨fun h => (by cases h), fun h => (by cases h)⟩
+theorem nd_sgPub (o : String) : NonDestroy (.sgPub o) := fun _ => ⟨fun h => (by cases h), fun h => (by cases h)⟩
+theorem nd_sgSign (o : String) : NonDestroy (.sgSign o) := fun _ => ⟨fun h => (by cases h), fun h => (by cases h)⟩
+theorem nd_caCert (o : String) : NonDestroy (.caCert o) := fun _ => ⟨fun h => (by cases h), fun h => (by cases h)⟩
+theorem nd_caPsk : NonDestroy .caPsk := fun _ => ⟨fun h => (by cases h), fun h => (by cases h)⟩
+theorem nd_caPrk : NonDestroy .caPrk := fun _ => ⟨fun h => (by cases h), fun h => (by cases h)⟩
+theorem nd_caBundle : NonDestroy .caBundle := fun _ => ⟨fun h => (by cases h), fun h => (by cases h)⟩
+theorem nd_caFin : NonDestroy .caFin := fun _ => ⟨fun h => (by cases h), fun h => (by cases h)⟩
+theorem nd_kmsCreate : NonDestroy .kmsCreate := fun _ => ⟨fun h => (by cases h), fun h => (by cases h)⟩
+theorem nd_kmsGet (o : String) : NonDestroy (.kmsGet o) := fun _ => ⟨fun h => (by cases h), fun h => (by cases h)⟩
+theorem nd_kmsPub (o : String) : NonDestroy (.kmsPub o) := fun _ => ⟨fun h => (by cases h), fun h => (by cases h)⟩
+theorem nd_kmsSign (o : String) : NonDestroy (.kmsSign o) := fun _ => ⟨fun h => (by cases h), fun h => (by cases h)⟩
+theorem nd_kmCreate : NonDestroy .kmCreate := fun _ => ⟨fun h => (by cases h), fun h => (by cases h)⟩
 
 /-! ### generic leaf calls -/
 
@@ -442,6 +446,24 @@ theorem PhD.safe (hca : cfg.ca = .gcsca) {m3 : Manifest} {C : Cert} {T : String}
   unfold Inv; rw [hca]
   exact ⟨m3, r, C, T, h.inv⟩
 
+theorem Ph.safeN (hca : cfg.ca = .gcsca) {b : Bool} {kk : Option (String × Nat)} {s : St}
+    (h : Ph cfg m0 r c0 path0 b kk s) : SafeN cfg s := by
+  refine ⟨?_, h.nd⟩
+  unfold Inv; rw [hca]
+  exact ⟨m0, r, c0, path0, h.inv⟩
+
+theorem PhF.safeN (hca : cfg.ca = .gcsca) {K : String} {mat : Nat} {cm : Manifest} {obj : Option (String × Cert)}
+    {s : St} (h : PhF cfg m0 r c0 path0 K mat cm obj s) : SafeN cfg s := by
+  refine ⟨?_, h.nd⟩
+  unfold Inv; rw [hca]
+  exact ⟨m0, r, c0, path0, h.inv⟩
+
+theorem PhD.safeN (hca : cfg.ca = .gcsca) {m3 : Manifest} {C : Cert} {T : String} {f : Fault}
+    {s : St} (h : PhD cfg m0 r c0 m3 C T f s) : SafeN cfg s := by
+  refine ⟨?_, h.nd⟩
+  unfold Inv; rw [hca]
+  exact ⟨m3, r, C, T, h.inv⟩
+
 theorem lookup_cons_ne {α : Type} (k q : String) (v : α) (l : List (String × α)) (h : k ≠ q) :
     lookup ((k, v) :: l) q = lookup l q := by
   simp [lookup, h]
@@ -468,18 +490,19 @@ def rotatedManifest (cfg : Cfg) (req : Req) (m0 : Manifest) : Manifest :=
   withEntry { m0 with signing := cfg.bump m0.signing } (cfg.bump m0.signing) (target cfg req m0)
 
 /-- go: gcsca.Finalize for the mutation a rotation builds -/
-theorem gcsFinalize_spec (hca : cfg.ca = .gcsca) (hb : BumpOK cfg) (req : Req) (mat : Nat) (mu : Mut)
+theorem gcsFinalize_spec (hca : cfg.ca = .gcsca) (hb1 : cfg.bump m0.signing ≠ m0.signing)
+    (hb2 : cfg.bump m0.signing ≠ "") (req : Req) (mat : Nat) (mu : Mut)
     (hmr : mu.primaryRoot = none) (hms : mu.primarySigning = some (cfg.bump m0.signing)) (hmc : mu.rootCert = none)
     (ht1 : target cfg req m0 ≠ manifestName) (ht2 : target cfg req m0 ≠ cfg.rootPath)
     (ht3 : target cfg req m0 ≠ path0) :
     Tr sc cfg.overwrite (Ph cfg m0 r c0 path0 true (some (cfg.bump m0.signing, mat)))
       (gcsFinalize cfg mu [(cfg.bump m0.signing, ⟨req.cn, req.serial, mat, r.pub⟩)])
       (fun _ s => PhD cfg m0 r c0 (rotatedManifest cfg req m0) ⟨req.cn, req.serial, mat, r.pub⟩ (target cfg req m0) .ok s)
-      (Safe cfg) := by
+      (SafeN cfg) := by
   -- abbreviations
   generalize hK : cfg.bump m0.signing = K at *
   generalize hC : (⟨req.cn, req.serial, mat, r.pub⟩ : Cert) = C at *
-  have hKs : K ≠ m0.signing := by rw [← hK]; exact hb.1 _
+  have hKs : K ≠ m0.signing := hb1
   have hm2 : applyPrimaries mu m0 = { m0 with signing := K } := by
     unfold applyPrimaries setRoot setSigning
     rw [hmr, hms]
@@ -488,7 +511,7 @@ theorem gcsFinalize_spec (hca : cfg.ca = .gcsca) (hb : BumpOK cfg) (req : Req) (
     unfold uploadName target
     rw [hK, ← hC]; rfl
   unfold gcsFinalize
-  refine Triple.bind ((getManifest_spec true _).weaken (fun _ h => h) (fun _ _ h => h) (fun _ h => h.safe hca)) ?_
+  refine Triple.bind ((getManifest_spec true _).weaken (fun _ h => h) (fun _ _ h => h) (fun _ h => h.safeN hca)) ?_
   intro m
   refine Triple.of_fact ?_
   intro hm
@@ -510,17 +533,17 @@ theorem gcsFinalize_spec (hca : cfg.ca = .gcsca) (hb : BumpOK cfg) (req : Req) (
     refine Triple.pre (P := PhF cfg m0 r c0 path0 K mat { m0 with signing := K } none) ?_ (fun s hs => by subst hs; exact h0)
     refine Triple.bind (Q1 := fun _ s => PhF cfg m0 r c0 path0 K mat { m0 with signing := K } (some (target cfg req m0, C)) s) ?_ ?_
     · unfold writeIfAllowed
-      refine Triple.bind ((stExists_spec (target cfg req m0) PhF.stable (fun _ h => h)).weaken (fun _ h => h) (fun _ _ h => h) (fun _ h => h.safe hca)) ?_
+      refine Triple.bind ((stExists_spec (target cfg req m0) PhF.stable (fun _ h => h)).weaken (fun _ h => h) (fun _ _ h => h) (fun _ h => h.safeN hca)) ?_
       intro ex
       refine Triple.pre (P := PhF cfg m0 r c0 path0 K mat { m0 with signing := K } none) ?_ (fun s h => h.1)
       by_cases hex : (ex && !cfg.overwrite) = true
       · rw [if_pos hex]
-        refine Triple.throw (fun s h => ⟨h.safe hca, Or.inr ?_⟩)
+        refine Triple.throw (fun s h => ⟨h.safeN hca, Or.inr ?_⟩)
         simp at hex; exact hex.2
       · rw [if_neg hex]
         refine Triple.bind (Q1 := fun _ s => PhF cfg m0 r c0 path0 K mat { m0 with signing := K } (some (target cfg req m0, C)) s) ?_ (fun _ => Triple.pure _ (fun _ h => h))
         refine writeFile_spec (Q' := fun _ s => PhF cfg m0 r c0 path0 K mat { m0 with signing := K } (some (target cfg req m0, C)) s)
-          (target cfg req m0) (.der C) PhF.stable (fun _ h => h.safe hca) ?_ (fun _ _ h => h.safe hca)
+          (target cfg req m0) (.der C) PhF.stable (fun _ h => h.safeN hca) ?_ (fun _ _ h => h.safeN hca)
         intro s f h
         refine ⟨⟨?_, ?_, h.inv.entry, ?_, h.inv.kprim, h.inv.chain, h.inv.kroot, h.inv.sig_ne, h.inv.root_ne, h.inv.sr,
           h.inv.pm, h.inv.rm, h.inv.broot⟩, h.cache, h.nd.snoc (nd_stC _) f, h.key, ?_⟩
@@ -559,7 +582,7 @@ theorem gcsFinalize_spec (hca : cfg.ca = .gcsca) (hb : BumpOK cfg) (req : Req) (
     unfold rotatedManifest; rw [hK]
   rw [hrm]
   refine writeFile_spec (Q' := fun f s => PhD cfg m0 r c0 (withEntry { m0 with signing := K } K (target cfg req m0)) C (target cfg req m0) f s)
-    manifestName _ PhF.stable (fun _ h => h.safe hca) ?_ (fun _ _ h => h.safe hca)
+    manifestName _ PhF.stable (fun _ h => h.safeN hca) ?_ (fun _ _ h => h.safeN hca)
   intro s f h
   have hobj := h.obj _ _ rfl
   refine ⟨⟨lookup_cons_self _ _ _, ?_, ?_, ?_, ?_, ?_, ?_, ?_, ?_, ?_, ht1, h.inv.rm, ?_⟩, h.inv.kprim, h.nd.snoc (nd_stC _) f, ?_⟩
@@ -575,7 +598,7 @@ theorem gcsFinalize_spec (hca : cfg.ca = .gcsca) (hb : BumpOK cfg) (req : Req) (
   · rw [withEntry_signing, ← hC]; exact h.key
   · rw [← hC]
   · rw [withEntry_root]; exact h.inv.kroot
-  · rw [withEntry_signing, ← hK]; exact hb.2 _
+  · rw [withEntry_signing]; exact hb2
   · rw [withEntry_root]; exact h.inv.root_ne
   · rw [withEntry_signing, withEntry_root, ← hK]; exact h.inv.broot _
   · rw [withEntry_root]; exact h.inv.broot
@@ -585,19 +608,32 @@ theorem gcsFinalize_spec (hca : cfg.ca = .gcsca) (hb : BumpOK cfg) (req : Req) (
     unfold commitCall; rw [hca]; simp
 
 /-- go: CertificateAuthority.Finalize as called by updatePrimaryAndDestroy -/
-theorem caFinalize_spec (hca : cfg.ca = .gcsca) (hb : BumpOK cfg) (req : Req) (mat : Nat) (mu : Mut)
+theorem caFinalize_spec (hca : cfg.ca = .gcsca) (hb1 : cfg.bump m0.signing ≠ m0.signing)
+    (hb2 : cfg.bump m0.signing ≠ "") (req : Req) (mat : Nat) (mu : Mut)
     (hmr : mu.primaryRoot = none) (hms : mu.primarySigning = some (cfg.bump m0.signing)) (hmc : mu.rootCert = none)
     (ht1 : target cfg req m0 ≠ manifestName) (ht2 : target cfg req m0 ≠ cfg.rootPath)
     (ht3 : target cfg req m0 ≠ path0) :
     Tr sc cfg.overwrite (Ph cfg m0 r c0 path0 true (some (cfg.bump m0.signing, mat)))
       (caFinalize cfg mu [(cfg.bump m0.signing, ⟨req.cn, req.serial, mat, r.pub⟩)])
       (fun _ s => PhD cfg m0 r c0 (rotatedManifest cfg req m0) ⟨req.cn, req.serial, mat, r.pub⟩ (target cfg req m0) .ok s)
-      (Safe cfg) := by
+      (SafeN cfg) := by
   unfold caFinalize; rw [hca]
   exact Tr.wrap (P' := Ph cfg m0 r c0 path0 true (some (cfg.bump m0.signing, mat))) .caFin
     (fun s f h => Ph.stable _ _ s _ f nd_caFin h)
-    (fun s h => (Ph.stable _ _ s _ _ nd_caFin h).safe hca)
-    (gcsFinalize_spec hca hb req mat mu hmr hms hmc ht1 ht2 ht3) (fun _ s h => h.safe hca)
+    (fun s h => (Ph.stable _ _ s _ _ nd_caFin h).safeN hca)
+    (gcsFinalize_spec hca hb1 hb2 req mat mu hmr hms hmc ht1 ht2 ht3) (fun _ s h => h.safeN hca)
+
+theorem caFinalize_spec_safe (hca : cfg.ca = .gcsca) (hb1 : cfg.bump m0.signing ≠ m0.signing)
+    (hb2 : cfg.bump m0.signing ≠ "") (req : Req) (mat : Nat) (mu : Mut)
+    (hmr : mu.primaryRoot = none) (hms : mu.primarySigning = some (cfg.bump m0.signing)) (hmc : mu.rootCert = none)
+    (ht1 : target cfg req m0 ≠ manifestName) (ht2 : target cfg req m0 ≠ cfg.rootPath)
+    (ht3 : target cfg req m0 ≠ path0) :
+    Tr sc cfg.overwrite (Ph cfg m0 r c0 path0 true (some (cfg.bump m0.signing, mat)))
+      (caFinalize cfg mu [(cfg.bump m0.signing, ⟨req.cn, req.serial, mat, r.pub⟩)])
+      (fun _ s => PhD cfg m0 r c0 (rotatedManifest cfg req m0) ⟨req.cn, req.serial, mat, r.pub⟩ (target cfg req m0) .ok s)
+      (Safe cfg) :=
+  Tr.weaken (caFinalize_spec hca hb1 hb2 req mat mu hmr hms hmc ht1 ht2 ht3)
+    (fun _ h => h) (fun _ _ h => h) (fun _ h => h.safe)
 
 /-- go: DestroyKeyVersion of the old primary, after the commit -/
 theorem kmDestroy_spec (hca : cfg.ca = .gcsca) {m3 : Manifest} {C : Cert} {T : String}
@@ -686,7 +722,7 @@ theorem rotateKey_gcs (hca : cfg.ca = .gcsca) (hb : BumpOK cfg) (req : Req)
   rw [hmu2]
   show Triple sc _ (caFinalize cfg _ mu.certs >>= fun _ => _) _ _ _
   rw [hmu.1, hc]
-  refine Triple.bind (caFinalize_spec hca hb req mat _ hmu.2.1 rfl hmu.2.2.2 ht1 ht2 ht3) ?_
+  refine Triple.bind (caFinalize_spec_safe hca (hb.1 _) (hb.2 _) req mat _ hmu.2.1 rfl hmu.2.2.2 ht1 ht2 ht3) ?_
   intro _
   refine Triple.bind (Q1 := fun _ s => InvG cfg (rotatedManifest cfg req m0) r ⟨req.cn, req.serial, mat, r.pub⟩ (target cfg req m0) s ∧ DAC cfg s.log) ?_ ?_
   · unfold destroyOld
@@ -700,3 +736,4 @@ theorem rotateKey_gcs (hca : cfg.ca = .gcsca) (hb : BumpOK cfg) (req : Req)
 end gcs
 
 end GceTcb.CA
+
